@@ -41,6 +41,8 @@ def run(ctx):
     res.assumptions += ["real-number reading of the centroid recurrence", "x strictly increasing (range R > 0)"]
     res.not_decided += ["floating-point rounding of the centroid recurrence",
                         "the corollary on monotonicity of the number of clusters in t (follows from L2/L3 for single and complete linkage)"]
+    from .common import hidden_state as _hidden_state
+    _hidden_state(rc, "L5", ['clustering.single_linkage', 'clustering.complete_linkage', 'clustering.centroid_linkage', 'clustering.average_linkage'], "the linkages")
     res.require_instances("C11 obligations", len(res.obligations), 24)
 
 
